@@ -310,3 +310,12 @@ Lemma quiet_recv_rst sid code : quiet (recv_rst_stream sid code).
 Proof. unfold recv_rst_stream. apply quiet_bind_l. apply quiet_cfsm. exact I. Qed.
 Lemma quiet_recv_altsvc sid o f : quiet (recv_alt_svc sid o f).
 Proof. unfold recv_alt_svc. apply quiet_bind_l. apply quiet_cfsm. exact I. Qed.
+
+(* acknowledge_received_data on a closed connection: nothing happens at all *)
+Lemma ack_closed_noop n sid c : closed c -> 0 < sid -> 0 <= n ->
+  api_acknowledge_received_data n sid c = (c, Ok tt).
+Proof.
+  intros Hc Hs Hn. unfold api_acknowledge_received_data, g_ack_sid, g_ack_size.
+  destruct (sid <=? 0) eqn:E1; [lia|]. destruct (n <? 0) eqn:E2; [lia|].
+  unfold bind, ret, get. unfold closed in Hc. rewrite Hc. reflexivity.
+Qed.
